@@ -39,4 +39,41 @@ static inline void hex_out(FILE *f, const uint8_t *p, size_t n)
         static const char d[] = "0123456789abcdef";
         for (size_t i = 0; i < n; i++) { fputc(d[p[i] >> 4], f); fputc(d[p[i] & 15], f); }
 }
+
+/* ---- address-space placement: an arena around a 4 GiB boundary --------------------------------------------
+   arena_mid has all-zero low 32 address bits.  A harness may put one object exactly there, and now and then one
+   data buffer so that it straddles the boundary: code that handles pointers or pointer differences in 32 bits
+   (cmp dword on a pointer, add r32) then shows as a wrong result or a fault. */
+#include <sys/mman.h>
+#define ARENA_HALF (8u << 20)
+static uint8_t *arena_mid;
+static int arena_busy;
+static long arena_uses;
+static inline void arena_setup(void)
+{
+        for (uint64_t k = 0x10; k < 0x4000 && !arena_mid; k += 0x3d) {
+                uint8_t *want = (uint8_t *) ((k << 32) - ARENA_HALF);
+                void *p = mmap(want, 2 * (size_t) ARENA_HALF, PROT_READ | PROT_WRITE, MAP_PRIVATE | MAP_ANONYMOUS | MAP_FIXED_NOREPLACE, -1, 0);
+                if (p == (void *) want) arena_mid = want + ARENA_HALF;
+                else if (p != MAP_FAILED) munmap(p, 2 * (size_t) ARENA_HALF);
+        }
+}
+static inline int arena_owns(const void *p)
+{
+        return arena_mid && (const uint8_t *) p >= arena_mid - ARENA_HALF && (const uint8_t *) p < arena_mid + ARENA_HALF;
+}
+/* a buffer of n bytes (n >= 2) straddling the boundary, its start aligned to `al` (power of two); NULL if unavailable */
+static inline uint8_t *arena_straddle(rng_t *r, size_t n, size_t al)
+{
+        if (!arena_mid || arena_busy || n < 2 || n + 4096 > ARENA_HALF) return NULL;
+        size_t back = 1 + rng_below(r, (uint32_t) (n - 1));
+        uint8_t *p = arena_mid - back;
+        p = (uint8_t *) ((uintptr_t) p & ~(uintptr_t) (al - 1));
+        if (p >= arena_mid || p + n <= arena_mid) return NULL;
+        arena_busy = 1;
+        arena_uses++;
+        return p;
+}
+static inline void arena_release(void) { arena_busy = 0; }
+
 #endif
